@@ -1,3 +1,4 @@
+import StepupModel.K.Types
 /-!
 # Decision logic of the executor's hash checks (`executor.py`)
 
@@ -72,14 +73,10 @@ def ValidateResult.ops : ValidateResult → List String
   | .reset => ["reset_for_rerun", "delete_hash", "set_state:PENDING"]
   | .keepWaiting => ["set_state:PENDING"]
 
-/-- Why a single file is rehashed (`HashUpdateCause`). -/
-inductive Cause | external | succeeded | failed | confirmed
-  deriving DecidableEq, Repr
-
-/-- The guard of `Executor._run_hash_job`: the result `new` of `FileHash.refreshed(old, path)`
+/-- The guard of `Executor._run_hash_job` (`cause` is the `HashUpdateCause`): the result `new` of `FileHash.refreshed(old, path)`
 is passed to `Workflow.update_file_hashes` iff it differs from the recorded hash or the cause is
 CONFIRMED (which must flip UNCONFIRMED to CONFIRMED / MISSING even when nothing changed). -/
-def hashJobApplies {η : Type} [DecidableEq η] (old new : η) (cause : Cause) : Bool :=
+def hashJobApplies {η : Type} [DecidableEq η] (old new : η) (cause : K.Cause) : Bool :=
   new ≠ old || cause = .confirmed
 
 end StepupModel.P.Skip
